@@ -17,14 +17,15 @@ from ..stubs import StubWorld, assume_canon_real
 from ..base import Goal
 from .k6_autoref_ops import make_autoref
 
-FUNCTIONS = ['dd.bdd.copy_bdd', 'dd.bdd._copy_bdd', 'dd.bdd.BDD.copy',
+FUNCTIONS = ['dd._copy.copy_vars', 'dd.autoref.copy_vars', 'dd.bdd.copy_bdd', 'dd.bdd._copy_bdd', 'dd.bdd.BDD.copy',
              'dd._copy.copy_bdd', 'dd._copy._copy_bdd', 'dd._copy._flip',
              'dd._copy.copy_bdds_from', 'dd.autoref.BDD.copy', 'dd.autoref.copy_bdd',
              'dd.autoref.Function.low', 'dd.autoref.Function.high',
              'dd.autoref.Function.var', 'dd.autoref.Function.negated']
 STUBS = ['target BDD.ite -> contract (K3/K4)', 'target BDD.find_or_add -> contract (K1)']
 
-VARIANTS = ['copy_bdd', 'BDD.copy', '_copy.copy_bdd', '_copy.copy_bdds_from', 'autoref.copy']
+VARIANTS = ['copy_bdd', 'BDD.copy', '_copy.copy_bdd', '_copy.copy_bdds_from', 'autoref.copy',
+            '_copy.copy_vars', 'autoref.copy_vars']
 
 
 def orders(Ls, extra):
@@ -59,6 +60,30 @@ class Harness:
         self.sh.set(self.C, 'dict', hcont.HDict)
         self.sh.set(self.C, 'int', symint)
 
+    def run_copy_vars(self, variant, ms, src, names):
+        """`copy_vars` reproduces names and levels: fresh target, or one that already declares some
+        of the variables at the same levels (bottom-up prefixes, so that each is legal on its own)."""
+        c = engine.CTX
+        lv = dict(src.vars)
+        by_level = sorted(lv, key=lv.get)
+        pre = by_level[:c.choose(len(by_level) + 1, 'predeclared')]
+
+        def extract(model):
+            return dict(source=ms.extract(model), harness='copy',
+                        args=dict(variant=variant, predeclared=pre))
+        exc = dst = None
+        try:
+            dst = _copy_vars_call(variant, self.B, self.A, self.C, src, pre)
+        except Exception as e:
+            exc = e.with_traceback(None)
+        if exc is not None:
+            res = base.discharge([Goal('copy_vars_never_raises', z3.BoolVal(False))], [], extract)
+            return dict(outcome='raised:' + type(exc).__name__, goals=res)
+        res = base.discharge([Goal('names_and_levels_reproduced', z3.BoolVal(_copy_vars_judge(lv, dst))),
+                              Goal('source_order_untouched', z3.BoolVal(dict(src.vars) == lv))], [], extract)
+        return dict(outcome='returned:' + variant, goals=res, witness=base.witness(extract),
+                    expect=dict(outcome='returned'))
+
     def run(self):
         c = engine.CTX
         N, Ls, NT = self.N, self.L, self.NT
@@ -85,6 +110,8 @@ class Harness:
                 c.assume(z3.Select(mm.st0.RP, k) == z3.Select(mm.st0.P, k))
                 c.assume(z3.Select(mm.st0.RF, k) >= 0)
         src = ms.install(self.B)
+        if variant.endswith('copy_vars'):
+            return self.run_copy_vars(variant, ms, src, names_s)
         dst = mt.install(self.B)
         world = StubWorld(mt)
         world.install(dst)
@@ -148,7 +175,50 @@ class Harness:
         return dict(outcome='returned:' + variant, goals=res, witness=wit, expect=expect)
 
 
+def _copy_vars_call(variant, B, A, C, src, predeclared):
+    from ..mgr import nodel_class
+    dst = nodel_class(B)()
+    lv = dict(src.vars)
+    for nm in predeclared:
+        dst.add_var(nm, lv[nm])
+    if variant == '_copy.copy_vars':
+        C.copy_vars(src, dst)
+    else:
+        A.copy_vars(make_autoref(A, src), make_autoref(A, dst))
+    return dst
+
+
+def _copy_vars_judge(src_vars, dst):
+    L = len(src_vars)
+    ok = (dict(dst.vars) == dict(src_vars) and
+          dict(dst._level_to_var) == {l: n for n, l in src_vars.items()} and
+          tuple(dst._succ[1]) == (L, None, None) and set(dst._succ) == {1})
+    return ok
+
+
+def replay_copy_vars(case):
+    B = concrete.fresh_dd()
+    import dd.autoref as A
+    import dd._copy as C
+    a = case['args']
+    src = concrete.install(case['source'], B)
+    try:
+        dst = _copy_vars_call(a['variant'], B, A, C, src, a['predeclared'])
+    except Exception as e:
+        return dict(violates=True, key='copy_vars/raises', detail=f'{a["variant"]} with source order '
+                    f'{dict(src.vars)} (target already declares {a["predeclared"]}) raised {e!r}',
+                    observed=dict(outcome='raised:' + type(e).__name__))
+    if not _copy_vars_judge(dict(src.vars), dst):
+        return dict(violates=True, key='copy_vars/levels-not-reproduced',
+                    detail=f'{a["variant"]}: source {dict(src.vars)}, target {dict(dst.vars)} '
+                           f'(level map {dict(dst._level_to_var)}, terminal {dst._succ[1]})',
+                    observed=dict(outcome='returned'))
+    return dict(violates=False, detail='ok', observed=dict(outcome='returned'))
+
+
 def replay(case):
+    if case['args']['variant'].endswith('copy_vars'):
+        return replay_copy_vars(case)
     B = concrete.fresh_dd()
     import dd.autoref as A
     import dd._copy as C
